@@ -137,7 +137,10 @@ void FieldGenerator::GenerateDescriptorInitializerGeneric(google::protobuf::io::
                                + FullNameToLower(descriptor_->full_name(), descriptor_->file())
 			       + "__default_value";
   } else if (FieldSyntax(descriptor_) == 3 &&
-    descriptor_->type() == google::protobuf::FieldDescriptor::TYPE_STRING) {
+    descriptor_->type() == google::protobuf::FieldDescriptor::TYPE_STRING &&
+    !descriptor_->options().GetExtension(pb_c_field).string_as_bytes()) {
+    /* (a string_as_bytes field is a BYTES field: its default would be read
+     * as a ProtobufCBinaryData) */
     variables["default_value"] = "&protobuf_c_empty_string";
   } else {
     variables["default_value"] = "NULL";
